@@ -503,6 +503,7 @@ func (w *Writer) scannerFrom(pos int64, canObjStm bool) (*scanner, error) {
 	r := w.origW.(io.ReadSeeker)
 	getInt := safeGetInteger(writerLengthGetter{w}, canObjStm)
 	s := newScanner(r, getInt, w.w.enc)
+	s.unencrypted = w.refIsPlaintext
 	if ra, ok := w.origW.(io.ReaderAt); ok {
 		s.fileReader = ra
 	}
